@@ -32,7 +32,7 @@ RULE = (
     "(float64, 1-D, C order) and variants: permuted points; 2-D, Fortran-ordered, strided, reversed-view, read-only and pandas-Series (shuffled index "
     "labels) containers of the same element sequence; extra ignored coordinates; integer-valued coordinates and/or data passed as int64 / int32 "
     "(and general float coordinates with integer data); queries reshaped to 0-d / 2-D / 3-D / Fortran / strided; queries with a size-1 northing; "
-    "linearity triples (d1, d2, a d1 + b d2) with a, b in +-10^[-3,3], also with the caller re-using one data buffer. Point sets are in general "
+    "linearity triples (d1, d2, a d1 + b d2) with a, b in +-10^[-12,12] or compensating the data magnitude, d2 in the same or another magnitude class, also with the caller re-using one data buffer. Data magnitudes cycle through 1e-15, 1e-12, 1e-9, 1e-6, 1, 1e6, 1e12 (tolerances stay relative); coordinate extents 1e-2..1e6 and (30 %) 1e-8..1e12. Point sets are in general "
     "position, 4..150 points, scales 1e-2..1e6. A variant is non-trivial when the group has >= 4 points, non-constant data and the transformation "
     "really changed memory layout / container / order / dtype (checked on the arrays); distinct = hash of gridder configuration + inputs + variant."
 )
@@ -55,6 +55,17 @@ FLOORS = {  # ~40 % of what the unchanged tree produces (quick seed 0: 15274 sha
         "dtype_invariance:coords_int64": 100, "dtype_invariance:coords_int32": 100, "dtype_invariance:data_int64": 100,
         "dtype_invariance:all_int32": 100, "dtype_invariance:query_int64": 100, "dtype_invariance:float_coords_data_int64": 70,
         "query_layout:0d": 180, "query_layout:3d": 150, "query_layout:2d_fortran": 180, "linearity:buffer_reuse": 60, "groups": 180,
+        "groups:data_magnitude=1e-15": 24, "layout_invariance:data_magnitude=1e-15": 135, "permutation_invariance:data_magnitude=1e-15": 22,
+        "linearity:data_magnitude=1e-15": 17, "groups:data_magnitude=1e-12": 24, "layout_invariance:data_magnitude=1e-12": 135,
+        "permutation_invariance:data_magnitude=1e-12": 22, "linearity:data_magnitude=1e-12": 17, "groups:data_magnitude=1e-09": 24,
+        "layout_invariance:data_magnitude=1e-09": 135, "permutation_invariance:data_magnitude=1e-09": 22, "linearity:data_magnitude=1e-09": 17,
+        "groups:data_magnitude=1e-06": 24, "layout_invariance:data_magnitude=1e-06": 135, "permutation_invariance:data_magnitude=1e-06": 22,
+        "linearity:data_magnitude=1e-06": 17, "groups:data_magnitude=1": 24, "layout_invariance:data_magnitude=1": 135,
+        "permutation_invariance:data_magnitude=1": 22, "linearity:data_magnitude=1": 17, "groups:data_magnitude=1e+06": 24,
+        "layout_invariance:data_magnitude=1e+06": 135, "permutation_invariance:data_magnitude=1e+06": 22, "linearity:data_magnitude=1e+06": 17,
+        "groups:data_magnitude=1e+12": 24, "layout_invariance:data_magnitude=1e+12": 135, "permutation_invariance:data_magnitude=1e+12": 22,
+        "linearity:data_magnitude=1e+12": 17, "linearity:scalars=compensating": 70, "linearity:scalars=general": 60,
+        "linearity:mixed_magnitudes": 35, "groups:coordinate_extent_class=below_1e-2": 15, "groups:coordinate_extent_class=above_1e6": 15,
     },
     "thorough": {
         "eval:predict_shape": 120000, "eval:layout_invariance": 20000, "eval:extra_coords_ignored": 3600, "eval:query_layout": 24000,
@@ -64,7 +75,18 @@ FLOORS = {  # ~40 % of what the unchanged tree produces (quick seed 0: 15274 sha
         "layout_invariance:series": 3600, "dtype_invariance:coords_int64": 2000, "dtype_invariance:coords_int32": 2000,
         "dtype_invariance:data_int64": 2000, "dtype_invariance:all_int32": 2000, "dtype_invariance:query_int64": 2000,
         "dtype_invariance:float_coords_data_int64": 1400, "query_layout:0d": 3600, "query_layout:3d": 3000, "query_layout:2d_fortran": 3600,
-        "linearity:buffer_reuse": 1200, "groups": 3600,
+        "linearity:buffer_reuse": 1200, "groups": 3600, "groups:data_magnitude=1e-15": 480, "layout_invariance:data_magnitude=1e-15": 2700,
+        "permutation_invariance:data_magnitude=1e-15": 440, "linearity:data_magnitude=1e-15": 340, "groups:data_magnitude=1e-12": 480,
+        "layout_invariance:data_magnitude=1e-12": 2700, "permutation_invariance:data_magnitude=1e-12": 440, "linearity:data_magnitude=1e-12": 340,
+        "groups:data_magnitude=1e-09": 480, "layout_invariance:data_magnitude=1e-09": 2700, "permutation_invariance:data_magnitude=1e-09": 440,
+        "linearity:data_magnitude=1e-09": 340, "groups:data_magnitude=1e-06": 480, "layout_invariance:data_magnitude=1e-06": 2700,
+        "permutation_invariance:data_magnitude=1e-06": 440, "linearity:data_magnitude=1e-06": 340, "groups:data_magnitude=1": 480,
+        "layout_invariance:data_magnitude=1": 2700, "permutation_invariance:data_magnitude=1": 440, "linearity:data_magnitude=1": 340,
+        "groups:data_magnitude=1e+06": 480, "layout_invariance:data_magnitude=1e+06": 2700, "permutation_invariance:data_magnitude=1e+06": 440,
+        "linearity:data_magnitude=1e+06": 340, "groups:data_magnitude=1e+12": 480, "layout_invariance:data_magnitude=1e+12": 2700,
+        "permutation_invariance:data_magnitude=1e+12": 440, "linearity:data_magnitude=1e+12": 340, "linearity:scalars=compensating": 1400,
+        "linearity:scalars=general": 1200, "linearity:mixed_magnitudes": 700, "groups:coordinate_extent_class=below_1e-2": 300,
+        "groups:coordinate_extent_class=above_1e6": 300,
     },
 }
 JOBS = {"quick": 1, "thorough": 16}
@@ -317,6 +339,13 @@ def run_group(run, rng, model, east, north, data, weights, qe, qn, integer_base=
         raise
     run.count("groups")
     run.count("groups:" + model.kind)
+    mag = _STATE.get("magnitude", 1.0)
+    conf["data_magnitude"] = mag
+    base_witness["data_magnitude"] = mag
+    run.count("groups:data_magnitude=%g" % mag)
+    extent = max(float(np.ptp(east)), float(np.ptp(north)))
+    run.count("groups:coordinate_extent=1e%+03d" % int(np.floor(np.log10(extent))) if extent > 0 else "groups:coordinate_extent=0")
+    run.count("groups:coordinate_extent_class=" + ("below_1e-2" if extent < 1e-2 else "above_1e6" if extent > 1e6 else "documented_1e-2..1e6"))
     with np.errstate(all="ignore"):
         refm = reference(model, east, north, data, weights, qe, qn)
     nontrivial = _nontrivial_inputs(east, data)
@@ -352,6 +381,7 @@ def run_group(run, rng, model, east, north, data, weights, qe, qn, integer_base=
             continue
         run.evaluated("layout_invariance")
         run.count("layout_invariance:" + lname)
+        run.count("layout_invariance:data_magnitude=%g" % mag)
         worst = _compare_refit(run, "layout_invariance", group, lname, base, got, tol_layout, tol_cond, informative or model.qhull or model.kind == "neighbors", wit, "layout:" + lname)
         run.observe_max("layout_error_over_tolerance", worst)
         run.observe_max("layout_max_abs_difference_over_scale", max((float(np.nanmax(np.abs(g - b))) if np.any(~np.isnan(b)) else 0.0) for b, g in zip(base, got)) / (refm["scale"] + TINY))
@@ -425,6 +455,7 @@ def run_group(run, rng, model, east, north, data, weights, qe, qn, integer_base=
         else:
             run.evaluated("permutation_invariance")
             run.count("permutation_invariance:" + model.kind)
+            run.count("permutation_invariance:data_magnitude=%g" % mag)
             if model.kind == "cubic":  # see ASSUMPTIONS: SciPy's own order dependence is recorded, verde is compared with SciPy on the permuted points
                 import scipy.interpolate as si
 
@@ -482,9 +513,19 @@ def _query_variants(rng, qe, qn):
 
 
 def _linearity(run, rng, model, group, conf, east, north, data, weights, qe, qn, refm, informative, nontrivial, attempt, base, tol_layout, tol_cond):
-    a = float(rng.choice([-1, 1]) * 10 ** rng.uniform(-3, 3))
-    b = float(rng.choice([-1, 1]) * 10 ** rng.uniform(-3, 3))
-    d2 = tuple(gen.smooth_field(rng, east, north, float(np.max(np.abs(d))) or 1.0) for d in data)
+    mag = _STATE.get("magnitude", 1.0)
+    # d2 in the magnitude class of d1, or (30 %) in another one (tiny next to ordinary data)
+    mag2 = float(rng.choice(MAGNITUDES)) if rng.random() < 0.3 else None
+    d2 = tuple(gen.smooth_field(rng, east, north, (mag2 * 10 ** rng.uniform(-0.5, 0.5)) if mag2 else (float(np.max(np.abs(d))) or 1.0)) for d in data)
+    m1, m2 = max(float(np.max(np.abs(d))) for d in data), max(float(np.max(np.abs(d))) for d in d2)
+    if rng.random() < 0.5:  # all scalars: +-10^[-12, 12]
+        a = float(rng.choice([-1, 1]) * 10 ** rng.uniform(-12, 12))
+        b = float(rng.choice([-1, 1]) * 10 ** rng.uniform(-12, 12))
+        scalar_class = "general"
+    else:  # compensating scalars: a d1 and b d2 of ordinary, comparable size whatever the magnitude of d1 and d2 (and vice versa for huge data)
+        a = float(rng.choice([-1, 1]) * rng.uniform(0.3, 3) / m1)
+        b = float(rng.choice([-1, 1]) * 10 ** rng.uniform(-1.5, 0) / m2)
+        scalar_class = "compensating"
     d3 = tuple(a * x + b * y for x, y in zip(data, d2))
     # buffer re-use only where verde itself owns the stored state (documented copies: KNeighbors.data_, spline force coordinates); Linear hands a view of
     # the caller's data to SciPy, which keeps it - outside this statement (reported, not judged here)
@@ -523,6 +564,11 @@ def _linearity(run, rng, model, group, conf, east, north, data, weights, qe, qn,
         return
     run.evaluated("linearity")
     run.count("linearity:" + model.kind)
+    run.count("linearity:data_magnitude=%g" % mag)
+    run.count("linearity:scalars=" + scalar_class)
+    run.count("linearity:|a|=1e%+03d" % (3 * int(np.floor(np.log10(abs(a)) / 3))))
+    if mag2:
+        run.count("linearity:mixed_magnitudes")
     if reuse:
         run.count("linearity:buffer_reuse")
     rel = max(K_COND * refm["kappa_eff"] * EPS, model.rtol) + 64 * EPS
@@ -541,6 +587,7 @@ def _linearity(run, rng, model, group, conf, east, north, data, weights, qe, qn,
 
 
 INT_TYPES = ("int64", "int32")
+MAGNITUDES = (1e-15, 1e-12, 1e-9, 1e-6, 1.0, 1e6, 1e12)  # data-magnitude classes (absolute tolerances such as numpy.allclose's 1e-8 must not matter)
 
 
 def _dtype_class(run, rng, model, group, conf, integer_base, weights, attempt):
@@ -645,9 +692,22 @@ def _overflow_scalars(model, east, north, qe, qn):
 # ----------------------------------------------------------------------
 # workloads
 # ----------------------------------------------------------------------
-def _inputs(rng, n, ncomp, want_weights, scale=None):
+def _magnitude(index):
+    mag = MAGNITUDES[index % len(MAGNITUDES)]
+    _STATE["magnitude"] = mag
+    return mag
+
+
+def _coord_scale(rng, lo, hi):
+    """Coordinate extent: the documented range, or (30 %) the wider magnitude classes 1e-8 .. 1e12."""
+    if rng.random() < 0.3:
+        return float(10 ** rng.uniform(-8, 12))
+    return gen.log_uniform(rng, lo, hi)
+
+
+def _inputs(rng, n, ncomp, want_weights, scale=None, magnitude=1.0):
     east, north = gen.cloud(rng, n, scale=scale)
-    data = tuple(gen.smooth_field(rng, east, north) for _ in range(ncomp))
+    data = tuple(gen.smooth_field(rng, east, north, magnitude * 10 ** rng.uniform(-0.5, 0.5)) for _ in range(ncomp))
     weights = tuple(10 ** rng.uniform(-3, 1, n) for _ in range(ncomp)) if want_weights else None
     return east, north, data, weights
 
@@ -734,9 +794,9 @@ def _spline_model(rng, verde, east, north, scale, force_separate=None, damping="
 
 def _stream_spline(run, rng, verde, index):
     n = int(rng.integers(4, 130))
-    scale = gen.log_uniform(rng, 1e-2, 1e6)
+    scale = _coord_scale(rng, 1e-2, 1e6)
     want_w = rng.random() < 0.5
-    east, north, data, weights = _inputs(rng, n, 1, want_w, scale=scale)
+    east, north, data, weights = _inputs(rng, n, 1, want_w, scale=scale, magnitude=_magnitude(index))
     model = _spline_model(rng, verde, east, north, scale)
     qe, qn = _queries(rng, east, north, 12)
     ib, imodel = None, None
@@ -775,7 +835,7 @@ def _stream_trend(run, rng, verde, index):
     nterms = (degree + 1) * (degree + 2) // 2
     n = int(rng.integers(max(4, nterms + 2), 150))
     want_w = rng.random() < 0.5
-    east, north, data, weights = _inputs(rng, n, 1, want_w)
+    east, north, data, weights = _inputs(rng, n, 1, want_w, scale=_coord_scale(rng, 1e-2, 1e6), magnitude=_magnitude(index))
     model = Model("trend", "Trend(%d)" % degree, lambda: verde.Trend(degree), linear=True, degree=degree)
     qe, qn = _queries(rng, east, north, 12)
     ib = _integer_inputs(rng, n, 1)
@@ -787,9 +847,9 @@ def _stream_trend(run, rng, verde, index):
 
 def _stream_vector(run, rng, verde, index):
     n = int(rng.integers(4, 70))
-    scale = gen.log_uniform(rng, 1e-2, 1e6)
+    scale = _coord_scale(rng, 1e-2, 1e6)
     want_w = rng.random() < 0.5
-    east, north, data, weights = _inputs(rng, n, 2, want_w, scale=scale)
+    east, north, data, weights = _inputs(rng, n, 2, want_w, scale=scale, magnitude=_magnitude(index))
     poisson = float(rng.choice([-1.0, 0.5, 1.0, rng.uniform(-1, 1)]))
     mindist = float(rng.choice([0.02, 0.1, 0.5]) * scale)
     damping = None if rng.random() < 0.4 else float(10 ** rng.uniform(-8, 2))
@@ -819,7 +879,7 @@ def _stream_vector(run, rng, verde, index):
 
 def _stream_neighbors(run, rng, verde, index):
     n = int(rng.integers(6, 150))
-    east, north, data, _ = _inputs(rng, n, 1, False)
+    east, north, data, _ = _inputs(rng, n, 1, False, scale=_coord_scale(rng, 1e-2, 1e6), magnitude=_magnitude(index))
     k = int([1, 1, 2, 3, 5][index % 5])
     use_median = index % 7 == 6 and k >= 3
     kwargs = {"k": k}
@@ -843,8 +903,8 @@ def _stream_neighbors(run, rng, verde, index):
 
 def _stream_scipy(run, rng, verde, index):
     n = int(rng.integers(5, 120))
-    east, north = gen.cloud(rng, n, kind=str(rng.choice(["uniform", "jitter", "clusters"])))
-    data = (gen.smooth_field(rng, east, north),)
+    east, north = gen.cloud(rng, n, kind=str(rng.choice(["uniform", "jitter", "clusters"])), scale=_coord_scale(rng, 1e-2, 1e6))
+    data = (gen.smooth_field(rng, east, north, _magnitude(index) * 10 ** rng.uniform(-0.5, 0.5)),)
     rescale = bool(index % 4 in (1, 2))
     linear = (index // 2) % 2 == 0
     cls = verde.Linear if linear else verde.Cubic
@@ -859,17 +919,18 @@ def _stream_scipy(run, rng, verde, index):
 
 def _stream_composite(run, rng, verde, index):
     n = int(rng.integers(8, 100))
-    scale = gen.log_uniform(rng, 1e-1, 1e5)
+    scale = _coord_scale(rng, 1e-1, 1e5)
     want_w = rng.random() < 0.5
+    mag = _magnitude(index // 2)
     if index % 2 == 0:
-        east, north, data, weights = _inputs(rng, n, 1, want_w, scale=scale)
+        east, north, data, weights = _inputs(rng, n, 1, want_w, scale=scale, magnitude=mag)
         degree = int(rng.integers(0, 3))
         trend = Model("trend", "Trend(%d)" % degree, None, degree=degree)
         spline = _spline_model(rng, verde, east, north, scale, force_separate=False)
         model = Model("chain", "Chain[Trend(%d), %s]" % (degree, spline.label),
                       lambda: verde.Chain([("trend", verde.Trend(degree)), ("spline", spline.make())]), steps=(trend, spline))
     else:
-        east, north, data, weights = _inputs(rng, n, 2, want_w, scale=scale)
+        east, north, data, weights = _inputs(rng, n, 2, want_w, scale=scale, magnitude=mag)
         degree = int(rng.integers(0, 4))
         trend = Model("trend", "Trend(%d)" % degree, None, degree=degree)
         spline = _spline_model(rng, verde, east, north, scale, force_separate=False)
